@@ -3,7 +3,7 @@
 import sys
 CORE = "C01_AckedDurable C02_Unique C02_Monotone C02_NoGap C02_BaseIsStored C05_Monotone C05_NotAhead C06_NoHide C06_NoReuse"
 READ = "C03_FetchExact C04_Progress C06_Readable"
-DEFAULT = dict(FixRestore='TRUE', FixPublish='TRUE', FixMonotone='TRUE', FixReadOrder='TRUE', FixRange='TRUE', FixValidate='TRUE',
+DEFAULT = dict(FixRestore='TRUE', FixPublish='TRUE', FixMonotone='TRUE', FixReadOrder='TRUE', FixRange='TRUE', FixIndexSearch='TRUE', FixValidate='TRUE',
                DevNoWait='FALSE', DevCommitBeforeIndex='FALSE', DevRestoreKeepsOffset='FALSE', DevOrphanNotSkipped='FALSE',
                DevOrphanAlwaysSkipped='FALSE', DevNoFlushOnAck='FALSE')
 
@@ -33,6 +33,7 @@ DEV = {
     'NoMonotone': (dict(FixMonotone='FALSE'), 'C05_Monotone', dict(faults=0, crashes=0)),
     'NoReadOrder': (dict(FixReadOrder='FALSE'), 'C03_FetchExact', dict(faults=0, crashes=0, mbs='{80}')),
     'NoRange': (dict(FixRange='FALSE'), 'C04_Progress', dict(faults=0, crashes=0, interval=2, sh='ShOk12', mbs='{9,80}')),
+    'NoIndexSearch': (dict(FixIndexSearch='FALSE'), 'C04_Progress', dict(P='{"p1","p2","p3","p4","p5"}', K=1, sh='ShOk2', faults=0, crashes=0, interval=1, mbs='{9}')),
     'NoValidateNeg': (dict(FixValidate='FALSE'), 'C02_Monotone', dict(faults=0, crashes=0, sh='ShAll')),
     'NoValidateDup': (dict(FixValidate='FALSE'), 'C02_Unique', dict(faults=0, crashes=0, sh='ShAll')),
     'NoWait': (dict(DevNoWait='TRUE'), 'C01_AckedDurable', {}),
@@ -46,5 +47,6 @@ for name, (over, inv, kw) in DEV.items():
 gen('Sim_Log_a.cfg', P='{"p1","p2","p3"}', K=3, sh='ShAll', faults=3, crashes=1, inline=0, interval=1, invs="EmitSched " + CORE, view=False)
 gen('Sim_Log_b.cfg', P='{"p1","p2","p3"}', K=3, sh='ShOk12', faults=2, crashes=1, inline=2, interval=2, invs="EmitSched " + CORE, view=False)
 gen('Sim_Log_c.cfg', P='{"p1","p2"}', K=4, sh='ShOk12', faults=2, crashes=1, inline=3, interval=3, invs="EmitSched " + CORE, view=False)
+gen('Sim_Log_d.cfg', P='{"p1","p2","p3","p4","p5","p6","p7","p8"}', K=1, sh='ShOk12', faults=0, crashes=0, inline=0, interval=2, invs="EmitSched " + CORE, view=False)
 import json
 json.dump({k: v[1] for k, v in DEV.items()}, open('deviations.json', 'w'), indent=1)
